@@ -6,7 +6,9 @@
   * the language of a grammar: `Derives` (plain), `DerivesK` (with the derivation cost of both
     depth-counting modes and a switch forbidding empty lists), `NoEmptyList`;
   * attainment and soundness of the distance table;
-  * the reachability closure `Reach` / `ReachPlus` and `reachFrom`.
+  * the reachability closure `Reach` / `ReachPlus` and `reachFrom`;
+  * registration (`RegInv`): productions = registered direct subclasses;
+  * convergence of the loop within `number of entries` rounds (`stepN_length_stable`).
 -/
 import GEVerif.Model.Tree
 
@@ -1316,5 +1318,332 @@ theorem altsRanked_analyse (g : GrammarSpec) {rank : Nat → Nat} (h : ParentRan
     AltsRanked (analyse g).reg rank := by
   intro n prods p hg hp
   exact h p n ((regInv_analyse g).sound n prods p hg hp).1
+
+/-! ### The loop converges within `number of entries` rounds -/
+
+theorem stepN_succ (g : GrammarSpec) (r : Reg) (k : Nat) (d : DistTable) :
+    stepN g r (k + 1) d = distStep g r (stepN g r k d) := by
+  induction k generalizing d with
+  | zero => rfl
+  | succ k ih => rw [stepN, ih (distStep g r d)]; rfl
+
+theorem keys_stepN (g : GrammarSpec) (r : Reg) (k : Nat) (d : DistTable) :
+    keys (stepN g r k d) = keys d := by
+  induction k with
+  | zero => rfl
+  | succ k ih => rw [stepN_succ, keys_distStep, ih]
+
+theorem tableInv_stepN {g : GrammarSpec} {r : Reg} {d : DistTable} (h : TableInv g r d) (k : Nat) :
+    TableInv g r (stepN g r k d) := by
+  induction k with
+  | zero => exact h
+  | succ k ih => rw [stepN_succ]; exact tableInv_step ih
+
+theorem stepN_antitone (g : GrammarSpec) (r : Reg) (d : DistTable) {j k : Nat} (h : j ≤ k) :
+    TLe (stepN g r k d) (stepN g r j d) := by
+  induction k with
+  | zero => have : j = 0 := by omega
+            subst this; exact TLe.refl _
+  | succ k ih =>
+    by_cases hj : j = k + 1
+    · subst hj; exact TLe.refl _
+    · rw [stepN_succ]
+      exact TLe.trans (distStep_le g r _) (ih (by omega))
+
+theorem stepN_stable (g : GrammarSpec) (r : Reg) (d : DistTable) {L : Nat}
+    (hL : distStep g r (stepN g r L d) = stepN g r L d) {k : Nat} (h : L ≤ k) :
+    stepN g r k d = stepN g r L d := by
+  induction k with
+  | zero => have : L = 0 := by omega
+            subst this; rfl
+  | succ k ih =>
+    by_cases hj : L = k + 1
+    · subst hj; rfl
+    · rw [stepN_succ, ih (by omega), hL]
+
+/-! #### local monotonicity of the right-hand sides -/
+
+mutual
+theorem distTy_le_local {e : Nat} {d d' : DistTable} {B : Nat}
+    (H : ∀ s', lookupDist d' s' ≤ B → lookupDist d s' ≤ lookupDist d' s') :
+    ∀ ty, distTy e d' ty ≤ B → distTy e d ty ≤ distTy e d' ty
+  | .int, h => H _ h
+  | .float, h => H _ h
+  | .str, h => H _ h
+  | .bool, h => H _ h
+  | .cls _, h => H _ h
+  | .ann t _, h => by simp only [distTy] at h ⊢; exact distTy_le_local H t h
+  | .list t, h => by
+    simp only [distTy] at h ⊢; have := distTy_le_local (e := e) H t (by omega); omega
+  | .tuple ts, h => by
+    simp only [distTy] at h ⊢; have := distTysMax_le_local (e := e) H ts (by omega); omega
+  | .union ts, h => by
+    simp only [distTy] at h ⊢; have := distTysMin_le_local (e := e) H ts (by omega); omega
+theorem distTysMax_le_local {e : Nat} {d d' : DistTable} {B : Nat}
+    (H : ∀ s', lookupDist d' s' ≤ B → lookupDist d s' ≤ lookupDist d' s') :
+    ∀ ts, distTysMax e d' ts ≤ B → distTysMax e d ts ≤ distTysMax e d' ts
+  | [], _ => Nat.le_refl _
+  | t :: ts, h => by
+    simp only [distTysMax] at h ⊢
+    have := distTy_le_local (e := e) H t (by omega)
+    have := distTysMax_le_local (e := e) H ts (by omega)
+    omega
+theorem distTysMin_le_local {e : Nat} {d d' : DistTable} {B : Nat}
+    (H : ∀ s', lookupDist d' s' ≤ B → lookupDist d s' ≤ lookupDist d' s') :
+    ∀ ts, distTysMin e d' ts ≤ B → distTysMin e d ts ≤ distTysMin e d' ts
+  | [], _ => Nat.le_refl _
+  | t :: ts, h => by
+    simp only [distTysMin] at h ⊢
+    by_cases hc : distTy e d' t ≤ distTysMin e d' ts
+    · have := distTy_le_local (e := e) H t (by omega); omega
+    · have := distTysMin_le_local (e := e) H ts (by omega); omega
+end
+
+/-- If `d` is below `d'` on the entries the finite right-hand side `rhs d' s` was computed from,
+then `rhs d s ≤ rhs d' s`. -/
+theorem rhsSym_le_local {g : GrammarSpec} {r : Reg} {d d' : DistTable} (s : Sym)
+    (hV : rhsSym g r d' s < INF)
+    (H1 : ∀ s', lookupDist d' s' < rhsSym g r d' s → lookupDist d s' ≤ lookupDist d' s')
+    (H2 : ∀ n prods p, s = .cls n → (g.classes.getD n default).abstract = true →
+      getAlts r.alts n = some prods → p ∈ prods →
+      g.e + lookupDist d' (.cls p) = rhsSym g r d' s →
+      lookupDist d (.cls p) ≤ lookupDist d' (.cls p)) :
+    rhsSym g r d s ≤ rhsSym g r d' s := by
+  cases s with
+  | cls n =>
+    cases hab : (g.classes.getD n default).abstract with
+    | true =>
+      cases hal : getAlts r.alts n with
+      | none => simp only [rhsSym, hab, hal, ↓reduceIte]; exact Nat.le_refl _
+      | some prods =>
+        rw [rhsSym_abstract hab hal] at hV ⊢
+        obtain ⟨p, hp, hpe⟩ := List.mem_map.1 (listMin_mem hV)
+        have h2 := H2 n prods p rfl hab hal hp (by rw [rhsSym_abstract hab hal]; exact hpe)
+        have h3 : listMin (prods.map fun p => g.e + lookupDist d (.cls p)) ≤
+            g.e + lookupDist d (.cls p) := listMin_le_of_mem (List.mem_map.2 ⟨p, hp, rfl⟩)
+        rw [rhsSym_abstract hab hal]
+        omega
+    | false =>
+      rw [rhsSym_concrete hab] at hV H1 ⊢
+      rw [rhsSym_concrete hab]
+      have := distTysMax_le_local (e := g.e) (d := d) (d' := d')
+        (B := distTysMax g.e d' ((g.classes.getD n default).fields.map (·.2)))
+        (fun s' hs' => H1 s' (by omega)) _ (Nat.le_refl _)
+      omega
+  | _ => exact Nat.le_refl _
+
+theorem exists_min {α : Type} (P : α → Prop) (f : α → Nat) (h : ∃ a, P a) :
+    ∃ a, P a ∧ ∀ b, P b → f a ≤ f b := by
+  obtain ⟨a, ha⟩ := h
+  have key : ∀ n a, P a → f a = n → ∃ a, P a ∧ ∀ b, P b → f a ≤ f b := by
+    intro n
+    induction n using Nat.strongRecOn with
+    | _ n ih =>
+      intro a ha hn
+      by_cases hb : ∃ b, P b ∧ f b < n
+      · obtain ⟨b, hb1, hb2⟩ := hb
+        exact ih (f b) hb2 b hb1 rfl
+      · refine ⟨a, ha, fun b hPb => ?_⟩
+        apply Classical.byContradiction
+        intro hlt
+        exact hb ⟨b, hPb, by omega⟩
+  exact key _ a ha rfl
+
+/-! #### every round settles a new symbol -/
+
+theorem first_hit (g : GrammarSpec) (r : Reg) (d0 : DistTable) (L : Nat) (s : Sym) :
+    ∀ j k, L - k = j → k ≤ L →
+      lookupDist (stepN g r L d0) s < lookupDist (stepN g r k d0) s →
+      ∃ t, k ≤ t ∧ t < L ∧ lookupDist (stepN g r (t + 1) d0) s = lookupDist (stepN g r L d0) s ∧
+        lookupDist (stepN g r L d0) s < lookupDist (stepN g r t d0) s := by
+  intro j
+  induction j with
+  | zero =>
+    intro k hj hk h
+    have : k = L := by omega
+    subst this; exact absurd h (Nat.lt_irrefl _)
+  | succ j ih =>
+    intro k hj hk h
+    have hkL : k < L := by omega
+    by_cases he : lookupDist (stepN g r (k + 1) d0) s = lookupDist (stepN g r L d0) s
+    · exact ⟨k, Nat.le_refl _, hkL, he, h⟩
+    · have := stepN_antitone g r d0 (j := k + 1) (k := L) (by omega) s
+      obtain ⟨t, h1, h2, h3, h4⟩ := ih (k + 1) (by omega) (by omega) (by omega)
+      exact ⟨t, by omega, h2, h3, h4⟩
+
+theorem hit_rhs {g : GrammarSpec} {r : Reg} {d0 : DistTable} {t : Nat} {s : Sym} {V : Nat}
+    (hinv : TableInv g r d0)
+    (h1 : lookupDist (stepN g r (t + 1) d0) s = V) (h2 : V < lookupDist (stepN g r t d0) s) :
+    s ∈ keys d0 ∧ rhsSym g r (stepN g r t d0) s = V := by
+  rw [stepN_succ, lookupDist_distStep] at h1
+  have hle := lookupDist_le_INF (tableInv_stepN hinv t) s
+  split at h1
+  · rename_i hk
+    rw [keys_stepN] at hk
+    simp only [distStepSym] at h1
+    exact ⟨hk, by omega⟩
+  · omega
+
+theorem progress {g : GrammarSpec} {r : Reg} {d0 : DistTable} (hinv : TableInv g r d0)
+    {k L : Nat} (hk : k ≤ L)
+    (hne : ∃ s, lookupDist (stepN g r k d0) s ≠ lookupDist (stepN g r L d0) s) :
+    ∃ s, s ∈ keys d0 ∧ lookupDist (stepN g r k d0) s ≠ lookupDist (stepN g r L d0) s ∧
+      lookupDist (stepN g r (k + 1) d0) s = lookupDist (stepN g r L d0) s := by
+  -- `P s`: not settled at round `k`
+  let P : Sym → Prop := fun s => lookupDist (stepN g r L d0) s < lookupDist (stepN g r k d0) s
+  have hP : ∃ s, P s := by
+    obtain ⟨s, hs⟩ := hne
+    have := stepN_antitone g r d0 hk s
+    exact ⟨s, by show _ < _; omega⟩
+  obtain ⟨s1, hs1, hmin1⟩ := exists_min P (fun s => lookupDist (stepN g r L d0) s) hP
+  let V := lookupDist (stepN g r L d0) s1
+  let Q : Sym × Nat → Prop := fun q =>
+    P q.1 ∧ lookupDist (stepN g r L d0) q.1 = V ∧ k ≤ q.2 ∧ q.2 < L ∧
+      lookupDist (stepN g r (q.2 + 1) d0) q.1 = V ∧ V < lookupDist (stepN g r q.2 d0) q.1
+  have hQ : ∃ q, Q q := by
+    obtain ⟨t, h1, h2, h3, h4⟩ := first_hit g r d0 L s1 _ k rfl hk hs1
+    exact ⟨(s1, t), hs1, rfl, h1, h2, h3, h4⟩
+  obtain ⟨⟨s, t⟩, ⟨hPs, hVs, hkt, htL, hhit, hgt⟩, hmin2⟩ := exists_min Q (fun q => q.2) hQ
+  simp only at hPs hVs hkt htL hhit hgt hmin2
+  obtain ⟨hkey, hrhs⟩ := hit_rhs hinv hhit hgt
+  have hINF := lookupDist_le_INF (tableInv_stepN hinv t) s
+  have hloc : rhsSym g r (stepN g r k d0) s ≤ rhsSym g r (stepN g r t d0) s := by
+    apply rhsSym_le_local s (by omega)
+    · intro s' hs'
+      have ha := stepN_antitone g r d0 (j := t) (k := L) (by omega) s'
+      by_cases hp : P s'
+      · have := hmin1 s' hp
+        show _ ≤ _
+        omega
+      · have : ¬ (lookupDist (stepN g r L d0) s' < lookupDist (stepN g r k d0) s') := hp
+        omega
+    · intro n prods p _ _ _ _ hpe
+      have ha := stepN_antitone g r d0 (j := t) (k := L) (by omega) (.cls p)
+      by_cases hp : P (.cls p)
+      · have h1 := hmin1 _ hp
+        have hpV : lookupDist (stepN g r L d0) (.cls p) = V := by show _ = _; omega
+        obtain ⟨tp, h2, h3, h4, h5⟩ := first_hit g r d0 L (.cls p) _ k rfl hk hp
+        have := hmin2 (.cls p, tp) ⟨hp, hpV, h2, h3, by rw [h4, hpV], by rw [← hpV]; exact h5⟩
+        simp only at this
+        have hb := stepN_antitone g r d0 (j := t) (k := tp) this (.cls p)
+        omega
+      · have : ¬ (lookupDist (stepN g r L d0) (.cls p) < lookupDist (stepN g r k d0) (.cls p)) := hp
+        omega
+  refine ⟨s, hkey, by have : _ < _ := hPs; omega, ?_⟩
+  have h1 : lookupDist (stepN g r (k + 1) d0) s ≤ rhsSym g r (stepN g r k d0) s := by
+    rw [stepN_succ, lookupDist_distStep, if_pos (by rw [keys_stepN]; exact hkey)]
+    exact Nat.min_le_right _ _
+  have h2 := stepN_antitone g r d0 (j := k + 1) (k := L) (by omega) s
+  omega
+
+theorem countP_lt {α : Type} (p q : α → Bool) (l : List α)
+    (hmono : ∀ x ∈ l, p x = true → q x = true) (hex : ∃ x ∈ l, q x = true ∧ p x = false) :
+    l.countP p < l.countP q := by
+  induction l with
+  | nil => obtain ⟨x, hx, _⟩ := hex; simp at hx
+  | cons a l ih =>
+    rw [List.countP_cons, List.countP_cons]
+    have hm : ∀ x ∈ l, p x = true → q x = true := fun x hx => hmono x (List.mem_cons_of_mem _ hx)
+    have hle := List.countP_mono_left (p := p) (q := q) hm
+    obtain ⟨x, hx, hq, hp⟩ := hex
+    rcases List.mem_cons.1 hx with rfl | hx
+    · simp only [hq, hp, if_true]
+      have : (if false = true then 1 else 0) = 0 := rfl
+      omega
+    · have hlt := ih hm ⟨x, hx, hq, hp⟩
+      have ha := hmono a List.mem_cons_self
+      by_cases hpa : p a = true
+      · simp only [hpa, ha hpa, if_true]; omega
+      · have hpf : p a = false := by simpa using hpa
+        have h0 : (if p a = true then 1 else 0) = 0 := by simp [hpf]
+        rw [h0]
+        split <;> omega
+
+/-- From any table satisfying the invariant, `number of entries` rounds are enough: the table after
+`d0.length` rounds is unchanged by one more round. -/
+theorem stepN_length_stable {g : GrammarSpec} {r : Reg} {d0 : DistTable} (hinv : TableInv g r d0) :
+    distStep g r (stepN g r d0.length d0) = stepN g r d0.length d0 := by
+  let L := d0.length + 1
+  let cnt : Nat → Nat := fun k =>
+    (keys d0).countP fun s => lookupDist (stepN g r k d0) s == lookupDist (stepN g r L d0) s
+  have hsettle : ∀ k, k + 1 ≤ L → ∀ s,
+      lookupDist (stepN g r k d0) s = lookupDist (stepN g r L d0) s →
+      lookupDist (stepN g r (k + 1) d0) s = lookupDist (stepN g r L d0) s := by
+    intro k hk s hs
+    have h1 := stepN_antitone g r d0 (j := k) (k := k + 1) (by omega) s
+    have h2 := stepN_antitone g r d0 (j := k + 1) (k := L) hk s
+    omega
+  have hcount : ∀ k, k + 1 ≤ L →
+      (∀ s, lookupDist (stepN g r k d0) s = lookupDist (stepN g r L d0) s) ∨ k + 1 ≤ cnt (k + 1) := by
+    intro k
+    induction k with
+    | zero =>
+      intro hk
+      by_cases hall : ∀ s, lookupDist (stepN g r 0 d0) s = lookupDist (stepN g r L d0) s
+      · exact .inl hall
+      · right
+        have hne : ∃ s, lookupDist (stepN g r 0 d0) s ≠ lookupDist (stepN g r L d0) s :=
+          Classical.not_forall.1 hall
+        obtain ⟨s, hs1, hs2, hs3⟩ := progress hinv (by omega) hne
+        have := countP_lt
+          (fun s => lookupDist (stepN g r 0 d0) s == lookupDist (stepN g r L d0) s)
+          (fun s => lookupDist (stepN g r (0 + 1) d0) s == lookupDist (stepN g r L d0) s) (keys d0)
+          (fun x _ hx => by simp only [beq_iff_eq] at hx ⊢; exact hsettle 0 hk x hx)
+          ⟨s, hs1, by simpa using hs3, by simpa using hs2⟩
+        show 0 + 1 ≤ List.countP _ _
+        omega
+    | succ k ih =>
+      intro hk
+      by_cases hall : ∀ s, lookupDist (stepN g r (k + 1) d0) s = lookupDist (stepN g r L d0) s
+      · exact .inl hall
+      · right
+        have hne : ∃ s, lookupDist (stepN g r (k + 1) d0) s ≠ lookupDist (stepN g r L d0) s :=
+          Classical.not_forall.1 hall
+        rcases ih (by omega) with h | h
+        · exact absurd (fun s => hsettle k (by omega) s (h s)) hall
+        · obtain ⟨s, hs1, hs2, hs3⟩ := progress hinv (by omega) hne
+          have := countP_lt
+            (fun s => lookupDist (stepN g r (k + 1) d0) s == lookupDist (stepN g r L d0) s)
+            (fun s => lookupDist (stepN g r (k + 1 + 1) d0) s == lookupDist (stepN g r L d0) s)
+            (keys d0)
+            (fun x _ hx => by simp only [beq_iff_eq] at hx ⊢; exact hsettle (k + 1) hk x hx)
+            ⟨s, hs1, by simpa using hs3, by simpa using hs2⟩
+          show k + 1 + 1 ≤ List.countP _ _
+          have h' : k + 1 ≤ List.countP
+            (fun s => lookupDist (stepN g r (k + 1) d0) s == lookupDist (stepN g r L d0) s) (keys d0) := h
+          omega
+  have hall : ∀ s, lookupDist (stepN g r d0.length d0) s = lookupDist (stepN g r L d0) s := by
+    rcases hcount d0.length (Nat.le_refl _) with h | h
+    · exact h
+    · have h1 : cnt (d0.length + 1) ≤ (keys d0).length := List.countP_le_length
+      have h2 : (keys d0).length = d0.length := by simp [keys]
+      omega
+  -- equal lookups + consistent entries ⇒ equal tables
+  have hinvn := tableInv_stepN hinv d0.length
+  rw [distStep_eq]
+  conv => rhs; rw [← List.map_id (stepN g r d0.length d0)]
+  apply List.map_congr_left
+  intro p hp
+  have hk : p.1 ∈ keys (stepN g r d0.length d0) := List.mem_map.2 ⟨p, hp, rfl⟩
+  have h1 := lookupDist_distStep g r (stepN g r d0.length d0) p.1
+  rw [if_pos hk, ← stepN_succ] at h1
+  have h2 := hall p.1
+  have h3 := (hinvn p hp).1
+  apply Prod.ext
+  · rfl
+  · simp only [id]
+    show distStepSym g r (stepN g r d0.length d0) p.1 = p.2
+    rw [← h1, h3]
+    exact h2.symm
+
+/-- `distIter` with at least `length + 1` fuel returns a table unchanged by a round. -/
+theorem distIter_stable {g : GrammarSpec} {r : Reg} {d0 : DistTable} (hinv : TableInv g r d0)
+    {fuel : Nat} (hf : d0.length + 1 ≤ fuel) :
+    distStep g r (distIter g r fuel d0) = distIter g r fuel d0 := by
+  rcases distIter_stable_or_fuel g r fuel d0 with h | ⟨_, h⟩
+  · exact h
+  · have := h d0.length (by omega)
+    rw [stepN_succ] at this
+    exact absurd (stepN_length_stable hinv) this
 
 end GEVerif.Analysis
